@@ -1,4 +1,4 @@
-\* thorough tier generation: transition cover up to depth MaxOps+1 of two-view stacks (private LRU, shared
+\* thorough tier generation: transition cover up to depth MaxOps of two-view stacks (private LRU, shared
 \* LRU, shared LRU under/over Snappy).
 CONSTANTS
   StackIds = {5, 6, 13, 16}
